@@ -609,7 +609,9 @@ class Mp4Atom(ObjectWithFields):
             uuid = str(binascii.b2a_hex(uuid_data), 'ascii')
             atom_type = f'UUID({uuid})'
         else:
-            atom_type = str(atom_type, 'ascii')
+            # a box type is four bytes, not necessarily ASCII (the QuickTime
+            # user data types start with 0xA9, the copyright sign)
+            atom_type = str(atom_type, 'latin-1')
         if size < (src.tell() - position):
             # a box can not be smaller than its own header. Accepting it would
             # stop the caller's cursor from advancing
@@ -634,7 +636,7 @@ class Mp4Atom(ObjectWithFields):
             fourcc = b'uuid' + binascii.a2b_hex(self.atom_type[5:-1])
         else:
             assert len(self.atom_type) == 4
-            fourcc = bytes(self.atom_type, 'ascii')
+            fourcc = bytes(self.atom_type, 'latin-1')
         self.options.log.debug('%s: encode %s pos=%d', self._fullname,
                                self.classname(), self.position)
         # a box that was parsed with a 64-bit "largesize" header keeps that header
